@@ -312,9 +312,10 @@ impl<'a, 'tcx> Cx<'a, 'tcx> {
                         };
                         let _ = write!(
                             o,
-                            "{{\"rk\":\"agg\",\"ak\":\"adt\",\"adt\":{},\"variant\":{},\"fields\":[{}],\"ops\":{}}}",
+                            "{{\"rk\":\"agg\",\"ak\":\"adt\",\"adt\":{},\"variant\":{},\"vidx\":{},\"fields\":[{}],\"ops\":{}}}",
                             esc(&dp(self.tcx, *did)),
                             esc(v.name.as_str()),
+                            vidx.as_usize(),
                             names.join(","),
                             ops(fops)
                         );
